@@ -140,10 +140,16 @@ def coherence_failures(t, order=0):
         want = ((D != 0).sum(axis=1) if ax == 'observation' else (D != 0).sum(axis=0)).tolist()
         if nzc != want:
             f.append('nonzero_counts(%s) = %s, matrix says %s' % (ax, nzc, want))
-        s = np.asarray(t.sum(ax), dtype=float).ravel().tolist()
+        sraw = np.asarray(t.sum(ax))
+        if sraw.shape != (len(ids),):
+            f.append('sum(%s) has shape %s for %d ids' % (ax, sraw.shape, len(ids)))
+        s = np.asarray(sraw, dtype=float).ravel().tolist()
         want = (D.sum(axis=1) if ax == 'observation' else D.sum(axis=0)).tolist()
         if not np.allclose(s, want, rtol=1e-12, atol=0, equal_nan=True):
             f.append('sum(%s) = %s, matrix says %s' % (ax, s, want))
+        nzraw = np.asarray(t.nonzero_counts(ax, binary=True))
+        if nzraw.shape != (len(ids),):
+            f.append('nonzero_counts(%s) has shape %s for %d ids' % (ax, nzraw.shape, len(ids)))
         if len(ids) <= 3:
             pw = [(str(a[1]), str(b[1]), np.asarray(a[0]).ravel().tolist(), np.asarray(b[0]).ravel().tolist())
                   for a, b in t.iter_pairwise(axis=ax)]
@@ -159,10 +165,24 @@ def coherence_failures(t, order=0):
                     f.append('get_value_by_ids(%r,%r) = %r, matrix says %r' % (o, s, t.get_value_by_ids(o, s), D[n, k]))
 
     def listing():
-        nz = [(str(a), str(b)) for a, b in t.nonzero()]
         want = [(oids[n], sids[k]) for n in range(len(oids)) for k in range(len(sids)) if D[n, k] != 0]
+        if order % 2:
+            # the listing is a generator: consume it while OTHER reads go on between two items (per-sample and
+            # per-observation reads flip the internal layout); what it yields must not depend on that
+            nz, flip = [], 0
+            for a, b in t.nonzero():
+                nz.append((str(a), str(b)))
+                flip += 1
+                if flip % 2:
+                    t.data(str(b), axis='sample', dense=True)
+                else:
+                    t.data(str(a), axis='observation', dense=True)
+            how = 'nonzero() consumed while other reads go on'
+        else:
+            nz = [(str(a), str(b)) for a, b in t.nonzero()]
+            how = 'nonzero()'
         if sorted(nz) != sorted(want) or len(nz) != len(want):
-            f.append('nonzero() = %s, matrix says %s' % (nz, want))
+            f.append('%s = %s, matrix says %s' % (how, nz, want))
 
     def totals():
         if not np.isclose(float(t.sum('whole')), D.sum(), rtol=1e-12, atol=0, equal_nan=True):
